@@ -287,6 +287,7 @@ fn run_case(c: &mut Cur) -> Vec<i128> {
         std::thread::spawn(move || receiver_thread(receiver, rprog, done, got))
     };
     let mut waits_timed_out = 0;
+    let mut started = 0usize;
     let wait = |cond: &dyn Fn() -> bool| -> bool {
         let t = Instant::now();
         while !cond() {
@@ -305,6 +306,9 @@ fn run_case(c: &mut Cur) -> Vec<i128> {
                     let snd = sender.clone();
                     let r = catch_unwind(AssertUnwindSafe(|| s.start_streaming_loop(snd, &mut ctrl)));
                     let code = res_code(r);
+                    if code == 0 {
+                        started += 1;
+                    }
                     trace::mark(21, code as i64, 0);
                     res.push(code);
                 }
@@ -372,6 +376,12 @@ fn run_case(c: &mut Cur) -> Vec<i128> {
         drop(s);
         trace::mark(29, 0, 0);
     }
+    // a loop thread that has been stopped still has to drop its PayloadSender: wait for that, so
+    // that no thread of this case is alive when the next one starts
+    wait(&|| {
+        trace::count_loop_events(trace::SENDER_DROP, 0) >= started
+            && trace::count_loop_events(trace::RECEIVER_DROP, 1) >= started
+    });
     drop(sender);
     let ev = trace::end();
     std::mem::forget(ctrl);
